@@ -153,7 +153,7 @@ EXTRA_MODULES = {
     "C04": ["Pdt.Props.Lemmas.Partition", "Pdt.Props.C04Filter"],
     "C07": ["Pdt.Props.C07Sql"],
     "C06": ["Pdt.Props.C06Sql"],
-    "C15": ["Pdt.Props.C15Extra", "Pdt.Props.C15Sql"],
+    "C15": ["Pdt.Props.C15Extra", "Pdt.Props.C15Sql", "Pdt.Props.C15Base"],
 }
 
 
